@@ -45,6 +45,9 @@ def catalogue(include_watershed=True, include_hmax=False, include_hp01=False):
         C["ptm1"] = lambda da, aux: da.spec.partition.ptm1(aux["wspd"], aux["wdir"], aux["dpt"], swells=2)
         C["ptm2"] = lambda da, aux: da.spec.partition.ptm2(aux["wspd"], aux["wdir"], aux["dpt"], swells=2)
         C["ptm3"] = lambda da, aux: da.spec.partition.ptm3(parts=3)
+        # forcing given as plain numbers (a constant wind / depth for the whole dataset)
+        C["ptm1_scalars"] = lambda da, aux: da.spec.partition.ptm1(11.5, 225.0, 24.4, swells=2)
+        C["ptm2_scalars"] = lambda da, aux: da.spec.partition.ptm2(11.5, 225.0, 24.4, swells=2)
         C["ptm1_smooth"] = lambda da, aux: da.spec.partition.ptm1(aux["wspd"], aux["wdir"], aux["dpt"], swells=2, smooth=True)
     # Hanson & Phillips merging on top of the watershed (experimental in the library: only the layout check uses it); hs_min is set relative to the total height so that the
     # "always merge partitions smaller than hs_min" rule is exercised whatever the magnitude of the generated spectra
@@ -55,7 +58,7 @@ def catalogue(include_watershed=True, include_hmax=False, include_hp01=False):
     return C
 
 
-WATERSHED = {"ptm1", "ptm2", "ptm3", "ptm1_smooth", "hp01", "hp01_nowind"}
+WATERSHED = {"ptm1", "ptm2", "ptm3", "ptm1_smooth", "hp01", "hp01_nowind", "ptm1_scalars", "ptm2_scalars"}
 FLOAT32_OUT = {"tp", "fp", "tp_discrete", "dp", "dpm", "dpspr", "alpha", "gamma", "stats", "scale_by_hs"}
 
 
@@ -79,7 +82,7 @@ def _dd(da):
     return min(x, 360 - x)
 
 
-PART_HEADS = {"ptm1": 1, "ptm1_smooth": 1, "ptm2": 2, "ptm3": 0, "hp01": 1, "hp01_nowind": 1}
+PART_HEADS = {"ptm1": 1, "ptm1_smooth": 1, "ptm2": 2, "ptm3": 0, "hp01": 1, "hp01_nowind": 1, "ptm1_scalars": 1, "ptm2_scalars": 2}
 
 
 def sort_parts(c, heads):
